@@ -81,7 +81,12 @@ func (env *Env) call(e *spec.Call) Value {
 	case "unbox":
 		v := env.eval(e.Args[0])
 		t := env.resolveType(e.Args[1].(*spec.TypeExpr))
-		return en.unbox(v.one(), t)
+		r := en.unbox(v.one(), t)
+		if en.ctx.NoName == 0 {
+			// whatever an interface value of the state holds was allocated no later than now
+			en.assumeValid(env.st, r)
+		}
+		return r
 	case "zero":
 		return en.zero(env.resolveType(e.Args[0].(*spec.TypeExpr)))
 	case "be16", "be32", "be64":
@@ -722,6 +727,27 @@ func (env *Env) lockOf(e spec.Expr) smt.Term {
 // havocLocation forgets the location(s) designated by a modifies expression (evaluated in env's state) in st.
 func (env *Env) havocLocation(st *State, m spec.Expr) {
 	en := env.x.e
+	if c, ok := m.(*spec.Cond); ok && c.B == nil {
+		// "modifies loc if cond": havoc on a copy and keep the old arrays where the condition is false
+		cond := en.ctx.Name("modif", env.evalBool(c.C))
+		before := map[string]smt.Term{}
+		for k, v := range st.heap {
+			before[k] = v
+		}
+		env.havocLocation(st, c.A)
+		for k, v := range st.heap {
+			old, had := before[k]
+			if !had {
+				hk := en.heapKeys[k]
+				tmp := &State{heap: before, gen: st.gen, havocked: st.havocked}
+				old = en.heapArr(tmp, k, hk.Idx, hk.Elem)
+			}
+			if old.S != v.S {
+				st.heap[k] = en.ctx.Name("H<"+k+">", smt.Ite(cond, v, old))
+			}
+		}
+		return
+	}
 	switch m := m.(type) {
 	case *spec.Sel:
 		base := env.eval(m.X)
